@@ -513,6 +513,19 @@ func TestC08(t *testing.T) {
 			}
 		}
 	}
+	// one argument more than the filter takes (the documented parameters of the standard filters)
+	c08Takes := map[string]int{"abs": 0, "append": 1, "capitalize": 0, "ceil": 0, "compact": 0, "concat": 1, "date": 1, "default": 1, "divided_by": 1, "downcase": 0, "escape": 0, "escape_once": 0,
+		"first": 0, "floor": 0, "join": 1, "last": 0, "lstrip": 0, "map": 1, "minus": 1, "modulo": 1, "newline_to_br": 0, "plus": 1, "prepend": 1, "remove": 1, "remove_first": 1, "replace": 2, "replace_first": 2,
+		"reverse": 0, "round": 1, "rstrip": 0, "size": 0, "slice": 2, "sort": 1, "sort_natural": 1, "split": 1, "strip": 0, "strip_html": 0, "strip_newlines": 0, "times": 1, "truncate": 2, "truncatewords": 2,
+		"uniq": 0, "upcase": 0, "url_decode": 0, "url_encode": 0}
+	for _, f := range si.Filters {
+		if n, ok := c08Takes[f]; ok {
+			idx++
+			if env.Mine(idx) {
+				ar.Run(&c08ArityCase{Filter: f, NArgs: n + 1, Recv: "x"})
+			}
+		}
+	}
 	for _, f := range []string{"no_such_filter", "upcase2", "Upcase", "size_"} {
 		for n := 0; n <= 2; n++ {
 			idx++
